@@ -32,6 +32,92 @@ METHODS = [
     ("heavyhitters", "HeavyHitters", "__getitem__", "hh_getitem"), ("heavyhitters", "HeavyHitters", "n_added", "hh_n_added"), ("heavyhitters", "HeavyHitters", "n_records", "hh_n_records"),
 ]
 EXTERNS = {"_log_counter": ("log_counter", [0, 5, 6], 2)}
+INFO = {}
+
+# the batch entry points: (module, class, method, lean prefix of the class's translated methods)
+BATCH = [("countmin", "CountMinLinear", "linear"), ("countmin", "CountMinLog16", "log16"), ("countmin", "CountMinLog8", "log8"),
+         ("hyperloglog", "HyperLogLog", "hll"), ("heavyhitters", "HeavyHitters", "hh")]
+ADD_NAME = {"linear": "linear_add", "log16": "log16_add", "log8": "log8_add", "hll": "hll_add_m", "hh": "hh_add_m"}
+NGRAM_NAME = {"linear": "linear_add_ngram", "log16": "log16_add_ngram", "log8": "log8_add_ngram", "hll": "hll_add_ngram_m", "hh": "hh_add_ngram_m"}
+UPDATE_DICT_LIST = "if isinstance(keys, Dict):\n    for key, value in keys.items():\n        self.add(key, value)\nelse:\n    for key in keys:\n        self.add(key)"
+UPDATE_KEYS_ONLY = "for key in keys:\n    self.add(key)"
+UPDATE_NGRAM = "for key in keys:\n    self.add_ngram(key, ngram)"
+
+
+def _fold(lean, callee, elem_ty, elem_args, doc, extra_params=()):
+    """`def lean … (keys : List elem_ty) := keys.foldl (fun st x => callee …) init` threading the callee's results"""
+    info = INFO[callee]
+    res = info["results"]
+    if not res:
+        raise TranslateError(f"{callee} has no effect to thread through a loop")
+    hdr = ""
+    if info["uses_ko"]:
+        hdr += " {K B : Type} [DecidableEq B] (ko : Rt.KeyOps K B)"
+    elif info["has_a3"]:
+        hdr += " {B : Type} [DecidableEq B]"
+    for x in info["externs"]:
+        hdr += f" ({x} : {EXTERN_TY[x]})"
+    outer = [(n, t) for n, t in info["params"] if n not in elem_args]
+    for n, t in outer:
+        hdr += f" ({n} : {LEAN_TY[t]})"
+    for n, t in extra_params:
+        if n not in [x for x, _ in outer]:
+            hdr += f" ({n} : {LEAN_TY[t]})"
+    hdr += f" (keys : List ({elem_ty}))"
+
+    def proj(i):
+        if len(res) == 1:
+            return "st"
+        return "st" + ".2" * i + (".1" if i < len(res) - 1 else "")
+    call = [f"Full.{callee}"] + (["ko"] if info["uses_ko"] else []) + info["externs"]
+    for n, t in info["params"]:
+        if n in elem_args:
+            call.append(elem_args[n])
+        elif n in res:
+            call.append("(" + proj(res.index(n)) + ")" if len(res) > 1 else "st")
+        else:
+            call.append(n)
+    init = res[0] if len(res) == 1 else "(" + ", ".join(res) + ")"
+    return f"/-- {doc} -/\ndef {lean}{hdr} :=\n  keys.foldl (fun st x => {' '.join(call)}) {init}\n"
+
+
+def translate_batch(trees):
+    out, errors = {}, []
+    for mod, cls, pre in BATCH:
+        for meth in ("update", "update_ngram"):
+            names = [f"{pre}_update_list", f"{pre}_update_dict"] if meth == "update" else [f"{pre}_update_ngram"]
+            try:
+                node = _method_node(trees[mod], cls, meth)
+                body = list(node.body)
+                if body and isinstance(body[0], ast.Expr) and isinstance(body[0].value, ast.Constant):
+                    body = body[1:]
+                text = "\n".join(ast.unparse(x) for x in body)
+                add, ngram = ADD_NAME[pre], NGRAM_NAME[pre]
+                if add not in INFO or ngram not in INFO:
+                    raise TranslateError(f"{cls}.add / add_ngram were not translated")
+                if meth == "update":
+                    dflt = INFO[add]["defaults"].get("value")
+                    if dflt is None or not dflt.isdigit():
+                        raise TranslateError(f"{cls}.add has no integer default for `value`")
+                    if text == UPDATE_DICT_LIST:
+                        out[names[0]] = _fold(names[0], add, "K", {"key": "x", "value": dflt}, f"`{cls}.update(list)`: `for key in keys: self.add(key)` (default multiplicity {dflt})")
+                        out[names[1]] = _fold(names[1], add, "K × Nat", {"key": "x.1", "value": "x.2"}, f"`{cls}.update(dict)`: `for key, value in keys.items(): self.add(key, value)`")
+                    elif text == UPDATE_KEYS_ONLY:
+                        out[names[0]] = _fold(names[0], add, "K", {"key": "x", "value": dflt}, f"`{cls}.update(list)`: `for key in keys: self.add(key)`")
+                        out[names[1]] = _fold(names[1], add, "K × Nat", {"key": "x.1", "value": dflt},
+                                              f"`{cls}.update(dict)`: the same loop over the dict's KEYS — the values are ignored (multiplicity {dflt})")
+                    else:
+                        raise TranslateError(f"{cls}.update no longer reads as modelled: {text!r}")
+                else:
+                    if text != UPDATE_NGRAM:
+                        raise TranslateError(f"{cls}.update_ngram no longer reads as modelled: {text!r}")
+                    out[names[0]] = _fold(names[0], ngram, "K", {"key": "x"}, f"`{cls}.update_ngram(keys, ngram)`: `for key in keys: self.add_ngram(key, ngram)`")
+            except TranslateError as e:
+                for nm in names:
+                    errors.append(f"{nm}: {e}")
+                    out[nm] = f"-- TRANSLATION FAILED for {nm} ({cls}.{meth}): {e}\n"
+    return out, errors
+
 
 
 class _Rewrite(ast.NodeTransformer):
@@ -140,6 +226,9 @@ def translate_methods(kernel_fns):
                 args += f" ({n} : {LEAN_TY[t]})"
             res = ([f"`self.{a}`" for a in assigned_attrs] or (["the return value"] if has_ret else [])) + [f"`{m}`" for m in fn.mutated]
             out[lean] = f"/-- `{cls}.{meth}` (after `self.attr` ↦ parameter); result: ({', '.join(res)}) -/\ndef {lean}{args} :=\n{code}"
+            INFO[lean] = {"params": [(n, t) for n, t in params if t not in ("f", "af")], "results": list(assigned_attrs) + list(fn.mutated), "uses_ko": fn.uses_ko,
+                          "externs": list(fn.externs), "has_a3": any(t == "a3" for _, t in params),
+                          "defaults": {a.arg: ast.unparse(d) for a, d in zip(node.args.args[len(node.args.args) - len(node.args.defaults):], node.args.defaults)}}
         except TranslateError as e:
             errors.append(f"{lean}: {e}")
             out[lean] = f"-- TRANSLATION FAILED for {lean} ({cls}.{meth}): {e}\n-- (no definition emitted: the obligations in Properties/FullApi.lean that mention it no longer check)\n"
@@ -151,11 +240,16 @@ def run():
     by_mod = {}
     kernels2.translate_all(_collect=by_mod)
     defs, errors = translate_methods(by_mod)
+    trees = {m: _parse(os.path.join(REPO, "sketchnu", m + ".py"))[1] for m in ("countmin", "hyperloglog", "heavyhitters")}
+    bdefs, berr = translate_batch(trees)
+    errors += berr
     L = ["/- GENERATED by harness/methods.py from the class methods of the current /repo source — do not edit. -/",
          "import Model.Generated.FullLin", "import Model.Generated.FullLog", "import Model.Generated.FullHll", "import Model.Generated.FullHH",
          "namespace Sketchnu.Full", "open Sketchnu", ""]
     for _, _, _, lean in METHODS:
         L.append(defs[lean])
+    for nm in bdefs:
+        L.append(bdefs[nm])
     L.append("end Sketchnu.Full")
     changed = ["Methods.lean"] if _write_if_changed(os.path.join(GEN, "Methods.lean"), "\n".join(L) + "\n") else []
     return changed, errors
@@ -165,6 +259,8 @@ if __name__ == "__main__":
     by_mod = {}
     kernels2.translate_all(_collect=by_mod)
     d, e = translate_methods(by_mod)
-    for k, v in d.items():
+    trees = {m: _parse(os.path.join(REPO, "sketchnu", m + ".py"))[1] for m in ("countmin", "hyperloglog", "heavyhitters")}
+    b, be = translate_batch(trees)
+    for k, v in b.items():
         print(v)
-    print(e)
+    print(e, be)
